@@ -15,6 +15,7 @@ import VaxisModel.Lemmas.C12Draw
 import VaxisModel.Lemmas.C12Replies
 import VaxisModel.Lemmas.C12Wire
 import VaxisModel.Props.C05Draw
+import VaxisModel.Props.C05
 
 namespace VaxisModel.Props.C12
 open VaxisModel.Model.Render VaxisModel.Spec VaxisModel.Spec.Display VaxisModel.Lemmas.RenderGate
@@ -665,5 +666,44 @@ theorem facts_wire (dec : String → G) (tw : String → Nat) (r c : Int) (n : N
     simp [instFmt, opsOf, wireMatches, osc22Payload]
   · rw [h4]
     simp [instFmt, opsOf, wireMatches, csiWire, paramBytes, List.intercalate]
+
+/-! ### The start state of the composition theorem is the state the real start-up leaves -/
+
+open VaxisModel.Model.C12Replies in
+/-- Panic-freedom and the invariant along any resize-free run (C05, step by step). -/
+theorem runOps_inv {rows cols : Nat} (d : Lemmas.Emu.Dim rows cols) :
+    ∀ (ops : List EOp) (e e' : Emu), Lemmas.Emu.EmuInv e rows cols → (∀ op ∈ ops, ∀ w h, op ≠ .resize w h) →
+      runOps e ops = .ok e' → Lemmas.Emu.EmuInv e' rows cols := by
+  intro ops
+  induction ops with
+  | nil => intro e e' hi _ h; cases h; exact hi
+  | cons op rest ih =>
+    intro e e' hi hn h
+    obtain ⟨r, hr, hi'⟩ := VaxisModel.Props.C05.emu_safe hi d op (hn op (by simp))
+    simp only [runOps, hr, bind, Except.bind] at h
+    exact ih r.1 e' hi' (fun o ho => hn o (by simp [ho])) h
+
+open VaxisModel.Model.C12Replies in
+/-- **From the real start-up** (20×6): the emulator model, started as `New()` + `resize(20, 6)` and
+    fed everything the real Vaxis writes until it is ready to render (`startupAll`: compared with the
+    real byte stream on every run), ends — on the alternate screen, with the modes Vaxis enables — in a
+    state that is a start state of the composition theorem (`DSim … (startDisplay 20 6)`). -/
+theorem emu_real_startup_related (dec : String → G) (hemp : dec "" = []) :
+    ∃ e, runOps (Lemmas.EmuRefine.newState 20 6) startupAll = .ok e ∧ DSim dec (startDisplay 20 6) e 6 20 := by
+  have hrun : (match runOps (Lemmas.EmuRefine.newState 20 6) startupAll with
+      | .ok e => startCheck e
+      | .error _ => false) = true := by decide +kernel
+  cases h : runOps (Lemmas.EmuRefine.newState 20 6) startupAll with
+  | error p => rw [h] at hrun; cases hrun
+  | ok e =>
+    rw [h] at hrun
+    have hd : Lemmas.Emu.Dim 6 20 := ⟨by decide, by decide, by decide, by decide⟩
+    have hi0 := (Lemmas.EmuRefine.sim2_init 20 6 (by decide) (by decide) (by decide) (by decide)
+      (Lemmas.EmuRefine.new_eq 20 6 (by decide) (by decide))).sim.inv
+    have hi := runOps_inv hd startupAll _ e hi0 (by
+      intro op hop w h hc
+      subst hc
+      simp [startupAll, startupQueries, startupGroups, q] at hop) h
+    exact ⟨e, rfl, dsim_of_startCheck hemp e 6 20 hi hd hrun⟩
 
 end VaxisModel.Props.C12
